@@ -121,6 +121,8 @@ pub struct NodeObs {
     pub walk: Vec<(String, String)>,
     pub walk_events: u64,
     pub walk_list: Vec<String>,
+    /// (referenced name, node address) pairs seen by the walker in derivation order.
+    pub walk_addrs: Vec<(String, usize)>,
     /// Address range of the root node's content allocation is not knowable in general; instead
     /// the addresses of all leaves reachable through the content's own Pairs walk are irrelevant.
     pub span_text_ok: bool,
